@@ -372,6 +372,54 @@ def _mk_alphabet():
         k = min(2, A.shape[0])
         return lambda: cola.linalg.eig(A, k)
 
+    # ---- the same ALGORITHM OBJECTS are reused across all sequences of the run (and again in the repetition phase):
+    # state hidden on an algorithm object is part of the history
+    @op("eig_alg")
+    def _(c):
+        A, _ = c.pick(small_sq)
+        if A is None:
+            return None
+        name = c.rnd.choice(["power", "power", "lanczos", "arnoldi", "eigh", "eig", "lobpcg", "auto"])
+        k = 1 if name == "power" else min(2, A.shape[0])
+        return lambda: cola.linalg.eig(A, k, "LM", ALGS[name])
+
+    @op("eigmax_alg")
+    def _(c):
+        A, _ = c.pick(small_sq)
+        if A is None:
+            return None
+        name = c.rnd.choice(["power", "auto", "lanczos"])
+        return lambda: cola.linalg.eigmax(A, ALGS[name])
+
+    @op("inv_alg")
+    def _(c):
+        A, _ = c.pick(small_sq)
+        if A is None:
+            return None
+        v = c.operand(A.shape[0], None, A.dtype, "b", nonzero=True)
+        name = c.rnd.choice(["cg", "gmres", "lu", "chol", "auto"])
+        return lambda: cola.linalg.inv(A, ALGS[name]) @ v
+
+    @op("trace_alg")
+    def _(c):
+        A, _ = c.pick(lambda M: small_sq(M) and is_real(M))
+        if A is None:
+            return None
+        name = c.rnd.choice(["hutch", "hutch_nokey", "exact"])
+        return lambda: (cola.linalg.trace(A, ALGS[name]), cola.linalg.diag(A, 0, ALGS[name]))
+
+    @op("unary_alg")
+    def _(c):
+        A, _ = c.pick(small_sq)
+        if A is None:
+            return None
+        v = c.operand(A.shape[0], None, A.dtype, "v")
+        f = c.rnd.choice([cola.linalg.exp, cola.linalg.sqrt, cola.linalg.logdet])
+        name = c.rnd.choice(["lanczos", "arnoldi", "auto"])
+        if f is cola.linalg.logdet:
+            return lambda: f(A, ALGS[name], ALGS["hutch"])
+        return lambda: f(A, ALGS[name]) @ v
+
     @op("logdet")
     def _(c):
         A, _ = c.pick(small_sq)
@@ -467,6 +515,9 @@ def _mk_alphabet():
     return al
 
 
+ALGS = dict(power=cola.PowerIteration(max_iter=6), lanczos=cola.Lanczos(max_iters=4), arnoldi=cola.Arnoldi(max_iters=4), eigh=cola.Eigh(), eig=cola.Eig(),
+            lobpcg=cola.LOBPCG(max_iters=2), cg=cola.CG(max_iters=5), gmres=cola.GMRES(max_iters=3), lu=cola.LU(), chol=cola.Cholesky(),
+            hutch=cola.Hutch(key=5, max_iters=2, tol=0.1), hutch_nokey=cola.Hutch(max_iters=2, tol=0.1), exact=cola.Exact(), auto=cola.Auto())
 ALPHABET = _mk_alphabet()
 NAMES = sorted(ALPHABET)
 
